@@ -25,7 +25,11 @@ RULE = (
     "same query repeated with one argument varied (pad value, buffer, kernel), and in edit_state interleaved with "
     "in-place edits mask[i,j]=v and copy-derived masks (invert, copy, copy.copy, deepcopy) followed by the same "
     "query again; every result is checked against the reference for the CURRENT contents and against the same "
-    "call on a freshly built object; imaging_autopad optionally hand-pads with pad value 0 on the same objects "
+    "call on a freshly built object; fits_resize: every (file shape, target shape) pair with sides 1..5 (quick) / 1..8 (thorough), a FITS file "
+    "written with astropy in a per-case temp dir, loaded through Mask2D.from_fits for invert x flip_for_ds9 in "
+    "{off,on}^2: loading with resized_mask_shape must equal loading without it followed by resized_from(new_shape) "
+    "and the numpy reference (new pixels unmasked); pad_trim also runs Mask2D.unmasked_blurred_array_from (built-in "
+    "trim) with a delta kernel; imaging_autopad optionally hand-pads with pad value 0 on the same objects "
     "first. Oracle: a numpy reference embedding "
     "out[i+s]=in[i] with s=(H'-H)/2 when the parity of an axis is preserved and s in {floor,ceil} of "
     "(H'-H)/2 when it is not (the statement does not pin the half pixel), data and mask sharing one shift; "
@@ -48,6 +52,8 @@ ASSUMPTIONS = [
     "as every caller in the repository does",
     "masked entries of a native array are zero (C01), so the reference resizes where(mask, 0, values)",
     "numba is absent, so the @jit kernels run as plain Python",
+    "conf.instance['general']['fits']['flip_for_ds9'] may be assigned directly per case (restored afterwards); a "
+    "mask FITS file holds 0/1 in float64, int16 or uint8",
     "sessions: a mask may be edited in place through __setitem__ as long as one pixel stays unmasked; a "
     "native-stored array follows its (shared) mask object, a slim-stored array is only queried while the mask "
     "still has its original contents; zoom quantities are pure functions of (contents, pixel scales, origin), so "
@@ -415,6 +421,20 @@ def body_pad_trim(case, ctx):
         grid = np.asarray(aa.Grid2D.from_mask(mask=t.mask).native, dtype=float)
         ctx.close(grid, coords((ph, pw), ps, origin)[py:py + h, px:px + w], "mask2d/trimmed_array/coords",
                   atol=atol, what=tag + " coordinates of surviving pixels")
+    # sibling route with a built-in trim: blur the padded frame, then trim.  With a delta kernel of the case's
+    # shape the blur is the identity (sum with exact zeros; atol 1e-12*max|value| stated anyway)
+    delta = np.zeros((kh, kw))
+    delta[py, px] = 1.0
+    psf = aa.Kernel2D.no_mask(values=delta, pixel_scales=ps)
+    ub = pmask.unmasked_blurred_array_from(padded_array=parr, psf=psf, image_shape=(h, w))
+    btag = "Mask2D(%dx%d).unmasked_blurred_array_from(delta %dx%d, image_shape=%dx%d)" % (ph, pw, kh, kw, h, w)
+    ctx.close(np.asarray(ub.native, dtype=float), pvals[py:py + h, px:px + w], "mask2d/unmasked_blurred/values",
+              atol=1e-12 * float(np.abs(pvals).max()), what=btag)
+    ctx.equal(np.asarray(ub.native, dtype=float),
+              np.asarray(pmask.trimmed_array_from(padded_array=psf.convolved_array_from(array=parr),
+                                                  image_shape=(h, w)).native, dtype=float),
+              "mask2d/unmasked_blurred/values", btag + " vs convolve then trimmed_array_from")
+    _geometry(ctx, ub.mask, ps, origin, "mask2d/unmasked_blurred/geometry", btag)
     # and it undoes padded_before_convolution_from of an unmasked image
     p = un.padded_before_convolution_from(kernel_shape=(kh, kw))
     if tuple(p.shape_native) == (ph, pw):
@@ -1032,17 +1052,96 @@ def body_session(case, ctx):
                   "contents of mask object %d at the end of the session" % k)
 
 
+# ---------------------------------------------------------------------------------------------
+# constructor routes with a built-in resize / trim option
+# ---------------------------------------------------------------------------------------------
+def body_fits_resize(case, ctx):
+    """Mask2D.from_fits(resized_mask_shape=S, invert=I) == Mask2D.from_fits(invert=I).resized_from(S), for every
+    combination of invert, flip_for_ds9, crop / enlarge and parity; plus the numpy reference for both sides."""
+    import shutil
+    import tempfile
+    from astropy.io import fits
+    from autoconf import conf
+    aa = _aa()
+    sin = tuple(case["in"])
+    sout = tuple(case["out"])
+    h, w = sin
+    ps = tuple(float(v) for v in case["ps"])
+    origin = tuple(float(v) for v in case["origin"])
+    m = np.asarray(case["mask"], dtype=bool).reshape(h, w)
+    hdu = int(case.get("hdu", 0))
+    dtype = case.get("dtype", "float64")
+    _labels_resize(ctx, sin, sout)
+    ctx.label("hdu:%d" % hdu, "dtype:" + dtype)
+    grow = sout[0] > h or sout[1] > w
+    if grow:
+        ctx.label("enlarges")
+    if m.any() and (~m).any():
+        ctx.label("mask:mixed")
+    ctx.nt(grow and bool(m.any()) and bool((~m).any()))   # invert + enlarging is where the order matters
+    pc = parity_class(sin, sout)
+
+    section = conf.instance["general"]["fits"]
+    old_flip = section["flip_for_ds9"]
+    tmp = tempfile.mkdtemp(prefix="vp_c14_")
+    try:
+        path = os.path.join(tmp, "mask.fits")
+        hdus = [fits.PrimaryHDU(m.astype(dtype))] if hdu == 0 else [
+            fits.PrimaryHDU(np.zeros((2, 2))), fits.ImageHDU(m.astype(dtype))]
+        fits.HDUList(hdus).writeto(path)
+        for flip in (False, True):
+            section["flip_for_ds9"] = flip
+            stored = np.flipud(m) if flip else m
+            for invert in (False, True):
+                tag = "Mask2D.from_fits(%s, resized_mask_shape=%s, invert=%s) flip_for_ds9=%s" % (sin, sout, invert, flip)
+                base_want = ~stored if invert else stored
+                base = aa.Mask2D.from_fits(file_path=path, pixel_scales=ps, hdu=hdu, origin=origin, invert=invert)
+                ctx.equal(np.asarray(base, dtype=bool), base_want, "from_fits/base", tag + " without the resize option")
+                direct = aa.Mask2D.from_fits(file_path=path, pixel_scales=ps, hdu=hdu, origin=origin,
+                                             resized_mask_shape=sout, invert=invert)
+                ctx.check(isinstance(direct, aa.Mask2D) and tuple(direct.shape_native) == sout, "from_fits/resized/shape", tag)
+                two_step = base.resized_from(new_shape=sout)
+                key = "from_fits/resized/%s/%s" % ("invert" if invert else "plain", "enlarge" if grow else "crop")
+                ctx.equal(np.asarray(direct, dtype=bool), np.asarray(two_step, dtype=bool), key,
+                          tag + " vs from_fits(invert=%s).resized_from(%s)" % (invert, sout))
+                # numpy reference: centred crop / embedding of the loaded (and inverted) mask, new pixels unmasked
+                ctx.check(bool(matching_shifts(np.asarray(direct, dtype=bool), base_want, False)), key,
+                          lambda: tag + ": got %s, loaded mask is %s" % (_s(direct), _s(base_want)))
+                _geometry(ctx, direct, ps, origin, "from_fits/resized/geometry", tag)
+                if sout[0] >= h and sout[1] >= w:
+                    ctx.equal(np.asarray(direct.resized_from(new_shape=sin), dtype=bool), base_want,
+                              "from_fits/resized/roundtrip", tag + " then shrink back")
+    finally:
+        conf.instance["general"]["fits"]["flip_for_ds9"] = old_flip
+        shutil.rmtree(tmp, ignore_errors=True)
+
+
+def cases_fits_resize(tier):
+    seed = _seed()
+    sides = range(1, 6) if tier == "quick" else range(1, 9)
+    for h in sides:
+        for w in sides:
+            for h2 in sides:
+                for w2 in sides:
+                    rng = random.Random("fits/%d/%d/%d/%d/%d" % (seed, h, w, h2, w2))
+                    yield {"in": [h, w], "out": [h2, w2], "ps": SCALES[rng.randrange(len(SCALES))],
+                           "origin": ORIGINS[rng.randrange(len(ORIGINS))],
+                           "mask": _rand_mask(rng, h, w, rng.choice([0.3, 0.5, 0.5, 0.7])),
+                           "hdu": rng.choice([0, 0, 1]), "dtype": rng.choice(["float64", "int16", "uint8"])}
+
+
 SUBCHECKS = [
     SubCheck("resize_pairs", _check_resize, cases=cases_resize, shards={"quick": 16, "thorough": 16}),
-    SubCheck("resize_given", _check_resize, strategy=resize_given(), examples={"quick": 300, "thorough": 4000},
+    SubCheck("resize_given", _check_resize, strategy=resize_given(), examples={"quick": 200, "thorough": 4000},
              shards={"quick": 2, "thorough": 8}),
     SubCheck("pad_trim", body_pad_trim, cases=cases_pad_trim, shards={"quick": 8, "thorough": 8}),
     SubCheck("pad_trim_given", body_pad_trim, strategy=pad_trim_given(), examples={"quick": 200, "thorough": 3000},
              shards={"quick": 2, "thorough": 8}),
-    SubCheck("imaging_autopad", body_imaging, strategy=imaging_given(), examples={"quick": 600, "thorough": 6000},
+    SubCheck("imaging_autopad", body_imaging, strategy=imaging_given(), examples={"quick": 400, "thorough": 6000},
              shards={"quick": 4, "thorough": 8}),
-    SubCheck("zoom", body_zoom, strategy=zoom_given(), examples={"quick": 600, "thorough": 6000},
+    SubCheck("zoom", body_zoom, strategy=zoom_given(), examples={"quick": 400, "thorough": 6000},
              shards={"quick": 2, "thorough": 8}),
+    SubCheck("fits_resize", body_fits_resize, cases=cases_fits_resize, shards={"quick": 8, "thorough": 16}),
     SubCheck("repeat_calls", body_session, strategy=repeat_given(), examples={"quick": 400, "thorough": 6000},
              shards={"quick": 4, "thorough": 8}),
     SubCheck("edit_state", body_session, strategy=edit_given(), examples={"quick": 600, "thorough": 8000},
